@@ -86,7 +86,6 @@ def decode(val: t.Any, *, encoding: str = constants.DEFAULT_ENCODING) -> t.Any:
     return val
 
 
-@compat.lru_cache(maxsize=100_000)
 def isoformat(dt: datetime.date | datetime.time | datetime.timedelta) -> str:
     """Format any date/time object into an ISO-8601 string.
 
@@ -111,36 +110,38 @@ def isoformat(dt: datetime.date | datetime.time | datetime.timedelta) -> str:
     """
     if isinstance(dt, (datetime.date, datetime.time)):
         return dt.isoformat()
-    dur: pendulum.Duration = (
-        dt
-        if isinstance(dt, pendulum.Duration)
-        else pendulum.duration(
-            days=dt.days,
-            seconds=dt.seconds,
-            microseconds=dt.microseconds,
-        )
-    )
+    return _duration_isoformat(dt)
+
+
+@compat.lru_cache(maxsize=100_000)
+def _duration_isoformat(dt: datetime.timedelta) -> str:
+    # Negative components aren't valid ISO-8601, the sign leads the whole duration.
+    if dt < datetime.timedelta(0):
+        return f"-{_duration_isoformat(-dt)}"
+    # Work from the normalized integer fields - these are exact over the full range.
+    years = months = 0
+    days, seconds, micros = dt.days, dt.seconds, dt.microseconds
+    if isinstance(dt, pendulum.Duration):
+        years, months = dt.years, dt.months
+        days -= years * 365 + months * 30
+    hours, seconds = divmod(seconds, 3600)
+    minutes, seconds = divmod(seconds, 60)
+    # Whole weeks are carried as days ("W" can't be combined with other designators).
     datepart = "".join(
-        f"{p}{s}"
-        for p, s in ((dur.years, "Y"), (dur.months, "M"), (dur.remaining_days, "D"))
-        if p
+        f"{p}{s}" for p, s in ((years, "Y"), (months, "M"), (days, "D")) if p
     )
     timepart = "".join(
         f"{p}{s}"
         for p, s in (
-            (dur.hours, "H"),
-            (dur.minutes, "M"),
-            (
-                f"{dur.remaining_seconds}.{dur.microseconds:06}"
-                if dur.microseconds
-                else dur.remaining_seconds,
-                "S",
-            ),
+            (hours, "H"),
+            (minutes, "M"),
+            (f"{seconds}.{micros:06}" if micros else seconds, "S"),
         )
         if p
     )
-    period = f"P{datepart}T{timepart}"
-    return period
+    # The time designator is only valid when a time component follows it.
+    period = f"P{datepart}T{timepart}" if timepart else f"P{datepart}"
+    return period if datepart or timepart else "PT"
 
 
 _T = t.TypeVar("_T")
@@ -219,6 +220,9 @@ def dateparse(val: str, t: type[DateTimeT]) -> DateTimeT:
             If `val` is not a date string or does not resolve to an instance of
             the target datetime type.
     """
+    # A leading sign negates the whole duration.
+    if val.startswith("-P"):
+        return -dateparse(val[1:], t)  # type: ignore[operator,return-value]
     try:
         # When `exact=False`, the only two possibilities are DateTime and Duration.
         parsed: pendulum.DateTime | pendulum.Duration = pendulum.parse(val)  # type: ignore[assignment]
